@@ -40,6 +40,79 @@ type stmt struct {
 	Lvl   int      `json:"-"`               // copy via 0: the level set
 	Level string   `json:"level,omitempty"` // the same, for the replay file
 	Muted bool     `json:"muted,omitempty"` // emit: the logger's path level is Disabled, nothing may come out (set by execute)
+	// op: the context method that adds the field (default Str): "array-user" Array(k, userArrayMarshaler{v}),
+	// "array" Array(k, Arr().Str(v)), "dict" Dict(k, Dict().Str("in", v)), "object" Object(k, m{in: v}),
+	// "embed" EmbedObject(m{k: v}), "fields" Fields([]interface{}{k, v}), "iface" Interface(k, m{in: v})
+	Meth string `json:"meth,omitempty"`
+	// emit: what the event is given besides the context: 0 nothing; 1 two arrays open at once, filled alternately;
+	// 2 two dicts open at once; 3 three arrays and a dict, attached in reverse order of creation
+	Open int `json:"open,omitempty"`
+}
+
+// the bytes a context method adds for (key, val), as JSON written independently of zerolog
+func methodValue(meth, key, val string) (k string, raw string) {
+	switch meth {
+	case "array-user", "array":
+		return key, fmt.Sprintf("[%q]", val)
+	case "dict", "object", "iface":
+		return key, fmt.Sprintf("{\"in\":%q}", val)
+	}
+	return key, fmt.Sprintf("%q", val) // Str, embed, fields
+}
+
+func applyMethod(cx zerolog.Context, meth, key, val string) zerolog.Context {
+	switch meth {
+	case "array-user":
+		return cx.Array(key, userArr{vals: []string{val}})
+	case "array":
+		return cx.Array(key, zerolog.Arr().Str(val))
+	case "dict":
+		return cx.Dict(key, zerolog.Dict().Str("in", val))
+	case "object":
+		return cx.Object(key, strObj{"in", val})
+	case "iface":
+		return cx.Interface(key, strObj{"in", val})
+	case "embed":
+		return cx.EmbedObject(strObj{key, val})
+	case "fields":
+		return cx.Fields([]interface{}{key, val})
+	}
+	return cx.Str(key, val)
+}
+
+// sendOpen finishes a level-less event of l that is given the extra fields of flavour [open]; returns the
+// bytes those fields must occupy at the end of the line (without the leading comma)
+func sendOpen(l *zerolog.Logger, open int) string {
+	switch open {
+	case 1:
+		a1, a2 := zerolog.Arr(), zerolog.Arr()
+		for i := 0; i < 3; i++ {
+			a1.Int(i)
+			a2.Str(string(rune('x' + i)))
+		}
+		l.Log().Array("ia", a1).Array("ib", a2).Send()
+		return `"ia":[0,1,2],"ib":["x","y","z"]`
+	case 2:
+		d1, d2 := zerolog.Dict(), zerolog.Dict()
+		d1.Int("a", 1)
+		d2.Str("b", "x")
+		d1.Int("c", 2)
+		d2.Str("d", "y")
+		l.Log().Dict("da", d1).Dict("db", d2).Send()
+		return `"da":{"a":1,"c":2},"db":{"b":"x","d":"y"}`
+	case 3:
+		a1, a2, d, a3 := zerolog.Arr(), zerolog.Arr(), zerolog.Dict(), zerolog.Arr()
+		for i := 0; i < 2; i++ {
+			a1.Int(i)
+			a2.Str(string(rune('x' + i)))
+			a3.Bool(i == 0)
+			d.Int(string(rune('p'+i)), i)
+		}
+		l.Log().Array("i3", a3).Dict("id", d).Array("i2", a2).Array("i1", a1).Send()
+		return `"i3":[true,false],"id":{"p":0,"q":1},"i2":["x","y"],"i1":[0,1]`
+	}
+	l.Log().Send()
+	return ""
 }
 
 const resetKey = "<Reset()>"
@@ -70,17 +143,21 @@ func (w *lastWriter) Write(p []byte) (int, error) {
 }
 
 func member(pure []byte, k, v string) []byte {
+	return memberRaw(pure, k, fmt.Sprintf("%q", v))
+}
+
+func memberRaw(pure []byte, k, raw string) []byte {
 	var d []byte
 	if len(pure) > 1 {
 		d = append(d, ',')
 	}
-	d = append(d, fmt.Sprintf("%q:%q", k, v)...)
+	d = append(d, fmt.Sprintf("%q:%s", k, raw)...)
 	return d
 }
 
 // execute runs the program on the real code; returns observations, whether it is in the property's language,
 // and whether it reuses a Context value (K1 shape)
-func execute(p []stmt) (obs [][]byte, want [][]byte, inLang bool, reuse bool, lvlBad string) {
+func execute(p []stmt) (obs [][]byte, want [][]byte, inLang bool, reuse bool, lvlBad string, openBad string) {
 	zerolog.SetGlobalLevel(zerolog.Level(-128))
 	defer zerolog.SetGlobalLevel(zerolog.DebugLevel)
 	w := &lastWriter{}
@@ -111,9 +188,10 @@ func execute(p []stmt) (obs [][]byte, want [][]byte, inLang bool, reuse bool, lv
 			if !c.live || !c.own {
 				inLang = false
 			}
-			d := member(c.pure, s.Key, s.Val)
+			mk, mraw := methodValue(s.Meth, s.Key, s.Val)
+			d := memberRaw(c.pure, mk, mraw)
 			s.D = [][]byte{d}
-			nc := cell{isCtx: true, ctx: c.ctx.Str(s.Key, s.Val), pure: append(append([]byte{}, c.pure...), d...), live: true, own: true, lvl: c.lvl}
+			nc := cell{isCtx: true, ctx: applyMethod(c.ctx, s.Meth, s.Key, s.Val), pure: append(append([]byte{}, c.pure...), d...), live: true, own: true, lvl: c.lvl}
 			c.live = false
 			cells = append(cells, nc)
 		case "reset":
@@ -190,9 +268,24 @@ func execute(p []stmt) (obs [][]byte, want [][]byte, inLang bool, reuse bool, lv
 		case "emit":
 			c := get()
 			w.last = nil
-			c.log.Log().Send()
+			extra := sendOpen(c.log, s.Open)
 			line := w.last
+			garbled := false
 			o := bytes.TrimSuffix(line, []byte("}\n"))
+			if extra != "" && line != nil {
+				// the event's own arrays/dicts come last; what precedes them is the logger's context
+				switch {
+				case bytes.HasSuffix(o, []byte(","+extra)):
+					o = o[:len(o)-len(extra)-1]
+				case bytes.Equal(o, []byte("{"+extra)):
+					o = []byte("{")
+				default:
+					garbled = true
+					if openBad == "" {
+						openBad = fmt.Sprintf("statement %d: the event was given %s (arrays/dicts created together and filled alternately) but reads %q", i, extra, line)
+					}
+				}
+			}
 			s.Muted = c.lvl > int(zerolog.NoLevel)
 			if s.Muted {
 				// a muted logger reads no context at all: no observation (and no HEmit for the model)
@@ -209,7 +302,7 @@ func execute(p []stmt) (obs [][]byte, want [][]byte, inLang bool, reuse bool, lv
 			}
 			// the level of the derivation path: an event of level lv comes out iff lv >= that level, and
 			// carries the same context as the level-less event above
-			for lv := int(zerolog.TraceLevel); lv <= int(zerolog.PanicLevel) && lvlBad == ""; lv++ {
+			for lv := int(zerolog.TraceLevel); lv <= int(zerolog.PanicLevel) && lvlBad == "" && !garbled; lv++ {
 				w.last = nil
 				c.log.WithLevel(zerolog.Level(lv)).Send()
 				switch {
@@ -277,7 +370,11 @@ func progCoq(p []stmt) string {
 	return CoqList(xs)
 }
 
-func genProg(r *Rng, nonlinear bool, big bool) []stmt {
+var richMeths = []string{"", "array-user", "array", "dict", "object", "embed", "fields", "iface", "array-user"}
+
+// rich: context fields are added through every kind of context method that uses a pooled helper object, and the
+// events keep several arrays/dicts open at once
+func genProg(r *Rng, nonlinear bool, big bool, rich bool) []stmt {
 	p := []stmt{{K: "root"}}
 	type vinfo struct {
 		isCtx, dead, own, slot, nilc bool
@@ -320,7 +417,11 @@ func genProg(r *Rng, nonlinear bool, big bool) []stmt {
 			if r.Chance(12) { // Reset() instead of an appending method
 				p = append(p, stmt{K: "reset", X: x})
 			} else {
-				p = append(p, stmt{K: "op", X: x, Key: fmt.Sprintf("k%d", seq), Val: val()})
+				st := stmt{K: "op", X: x, Key: fmt.Sprintf("k%d", seq), Val: val()}
+				if rich {
+					st.Meth = richMeths[r.Intn(len(richMeths))]
+				}
+				p = append(p, st)
 			}
 			vars[x].dead = true
 			vars = append(vars, vinfo{isCtx: true, own: true, lvl: vars[x].lvl})
@@ -371,7 +472,11 @@ func genProg(r *Rng, nonlinear bool, big bool) []stmt {
 			vars = append(vars, vinfo{slot: true})
 		default:
 			x := pick(func(v vinfo) bool { return !v.isCtx })
-			p = append(p, stmt{K: "emit", X: x})
+			st := stmt{K: "emit", X: x}
+			if rich {
+				st.Open = r.Intn(4)
+			}
+			p = append(p, st)
 			vars = append(vars, vinfo{slot: true})
 		}
 	}
@@ -387,7 +492,11 @@ func genProg(r *Rng, nonlinear bool, big bool) []stmt {
 		ls[i], ls[j] = ls[j], ls[i]
 	}
 	for _, x := range ls {
-		p = append(p, stmt{K: "emit", X: x})
+		st := stmt{K: "emit", X: x}
+		if rich {
+			st.Open = r.Intn(4)
+		}
+		p = append(p, st)
 		if vars[x].lvl > int(zerolog.NoLevel) {
 			// a muted logger says nothing itself: what its path carries is read through a Level copy that opens it again
 			p = append(p, lcopy(x, []int{wide, wide, -1, 1, 4, 6}[r.Intn(6)]))
@@ -413,7 +522,7 @@ func (h probeHook) Run(e *zerolog.Event, l zerolog.Level, m string) {
 }
 
 func run(c *Ctx) {
-	c.Res.Rule = "derivation programs in SSA form over With / context ops / Logger / Level|Sample|Hook copies / Output / UpdateContext / emit, random trees (6-28 statements, branching, events from every node in random order); 3 streams: inside the property's language, with large values (contexts beyond the 500-byte capacity), and non-linear (a Context value reused: outside the language, K1 shape); context methods are appends or Reset() (on a Context value or inside the UpdateContext function); Level copies set wide / trace..panic / NoLevel / Disabled, every emit also sends one event per level trace..panic (emitted iff at or above the path's level, same context), a muted logger is read through a re-opening Level copy; directed sweeps: Reset() with live relatives (0/1/3 parent fields x Level|Sample|Hook|With|Output relatives x 4 update shapes x UpdateContext|Context value) and muted paths (Level(Disabled|NoLevel|warn|wide) before With() x 0/2 fields x With|Output owner x 3 update shapes x re-opening level); plus GetCtx probes through pooled helper events, Output keeping the Go context, and a concurrent run under the race detector. Non-trivial = at least 3 emits from at least 2 different arrays' worth of branches; distinct by program text"
+	c.Res.Rule = "derivation programs in SSA form over With / context ops / Logger / Level|Sample|Hook copies / Output / UpdateContext / emit, random trees (6-28 statements, branching, events from every node in random order); 3 streams: inside the property's language, with large values (contexts beyond the 500-byte capacity), and non-linear (a Context value reused: outside the language, K1 shape); context methods are appends or Reset() (on a Context value or inside the UpdateContext function); Level copies set wide / trace..panic / NoLevel / Disabled, every emit also sends one event per level trace..panic (emitted iff at or above the path's level, same context), a muted logger is read through a re-opening Level copy; directed sweeps: Reset() with live relatives (0/1/3 parent fields x Level|Sample|Hook|With|Output relatives x 4 update shapes x UpdateContext|Context value) and muted paths (Level(Disabled|NoLevel|warn|wide) before With() x 0/2 fields x With|Output owner x 3 update shapes x re-opening level); a stream of rich programs (fields added through Array(user marshaler|Arr()) / Dict / Object / EmbedObject / Fields / Interface, events given 2-3 arrays/dicts that were open at once and filled alternately); pool sweeps: Go-context leavers (10 ways an event given a context ends: Msg/Send, With().Ctx, Dict().Ctx(c) into Event.Dict|Array.Dict|Context.Dict|nil event|another dict, marshalers calling e.Ctx) x 1-3 open at once x 25 takers (marshalers/hooks reached through helper or logger events of a context-less logger) and objects-handed-out-twice (16 derivation/event actions using pooled arrays and dicts x 7 ways a sibling keeps arrays/dicts/events open at once); plus GetCtx probes through pooled helper events, Output keeping the Go context, and a concurrent run under the race detector. Non-trivial = at least 3 emits from at least 2 different arrays' worth of branches; distinct by program text"
 	c.OpenShards("From Verif Require Import Base.Prelude Misc.HlogHeap Heap.LoggerHeap Harness.C05H.", "list hstmt * list (list N)", "mismatches c05_run c05_eqb", 400)
 	n := 1500
 	if c.Thorough() {
@@ -421,12 +530,21 @@ func run(c *Ctx) {
 	}
 	k1seen := false
 	emitCase := func(p []stmt, modelToo bool) {
-		obs, want, inLang, reuse, lvlBad := execute(p)
+		obs, want, inLang, reuse, lvlBad, openBad := execute(p)
+		if openBad != "" {
+			c.Violate(Violation{Key: "pooled-object-shared", Monitor: "open-at-once", Desc: openBad + " (the arrays/dicts an event is given were handed out twice by the pool, or carry something left by an earlier derivation step)", Case: p})
+		}
 		if lvlBad != "" && inLang {
 			c.Violate(Violation{Key: "level-of-path-wrong", Monitor: "path-level", Desc: lvlBad, Case: p})
 		}
 		for _, st := range p {
 			switch {
+			case st.K == "op" && st.Meth != "":
+				c.Hist("context_method", st.Meth)
+			case st.K == "emit" && st.Open != 0 && !st.Muted:
+				c.Hist("emit", fmt.Sprintf("read, open-at-once flavour %d", st.Open))
+			case st.K == "emit" && st.Open != 0:
+				c.Hist("emit", "muted, open-at-once")
 			case st.K == "reset":
 				c.Hist("reset", "Context.Reset")
 			case st.K == "update" && strings.Contains(strings.Join(st.KVs, "\x00"), resetKey):
@@ -474,11 +592,11 @@ func run(c *Ctx) {
 		r := c.R.Fork()
 		switch i % 5 {
 		case 0:
-			emitCase(genProg(r, true, false), true) // non-linear, small values: model must still predict the bytes
+			emitCase(genProg(r, true, false, false), true) // non-linear, small values: model must still predict the bytes
 		case 1:
-			emitCase(genProg(r, false, true), false) // in language, beyond capacity: growth policy differs from the model's; monitor only
+			emitCase(genProg(r, false, true, false), false) // in language, beyond capacity: growth policy differs from the model's; monitor only
 		default:
-			emitCase(genProg(r, false, false), true)
+			emitCase(genProg(r, false, false, false), true)
 		}
 	}
 
@@ -716,6 +834,21 @@ func run(c *Ctx) {
 			c.Violate(Violation{Key: "hook-lost", Monitor: "getctx-probe", Desc: fmt.Sprintf("hook ran %d times over 5 derived loggers", len(seen)), Case: "Output/Level/Sample/With keep hooks"})
 		}
 		c.Res.Evaluations += 5
+	}
+
+	// ---- what the pools hand out next (pools.go): helper events never carry another event's Go context; no
+	//      array / dict / event is handed out twice, whatever derivation step or event came before ----
+	staleCtxSweep(c)
+	openAtOnceSweep(c)
+	// ---- rich derivation programs: fields added through Array (user marshaler / Arr()) / Dict / Object /
+	//      EmbedObject / Fields / Interface, events that keep several arrays and dicts open at once; the heap
+	//      model predicts the context bytes as before ----
+	{
+		nr := n / 5
+		for i := 0; i < nr; i++ {
+			emitCase(genProg(c.R.Fork(), i%6 == 5, false, true), true)
+		}
+		c.Res.ExtraCoverage["rich_programs"] = nr
 	}
 
 	// ---- hooks of the derivation path: siblings derived from one parent value ----
